@@ -1011,7 +1011,9 @@ def srs(
 
     (coeffunc, methfunc, rollfunc, ptr) = _process_inputs(stype, peak, rolloff, time)
     freq = np.atleast_1d(freq)
-    wn = 2 * pi * freq
+    # double precision, as in the shared array used by the parallel
+    # workers, so that serial and parallel runs use the same `wn`
+    wn = 2 * pi * freq.astype(float)
     LF = len(freq)
     sig = np.atleast_1d(sig)
     if sig.ndim == 1:
